@@ -303,12 +303,40 @@ func (a *clientAnchors) entryLock(fn *ssa.Function) (bool, bool) {
 
 func (a *clientAnchors) lockFlow(fn *ssa.Function) *lockInfo {
 	li := &lockInfo{must: map[ssa.Instruction]bool{}, may: map[ssa.Instruction]bool{}, exitMay: map[*ssa.BasicBlock]bool{}}
-	type st struct{ must, may bool }
+	// must/may: the lock is held; dMust/dMay: an Unlock of it has been deferred (released at RunDefers)
+	type st struct{ must, may, dMust, dMay bool }
+	isDeferUnlock := func(i ssa.Instruction) bool {
+		d, ok := i.(*ssa.Defer)
+		if !ok {
+			return false
+		}
+		sf := d.Call.StaticCallee()
+		return sf != nil && sf.Name() == "Unlock" && len(d.Call.Args) > 0 && a.isClientFieldAddr(d.Call.Args[0], "pendingMu")
+	}
+	step := func(s st, i ssa.Instruction) st {
+		switch {
+		case a.isMuCall(i, "Lock"):
+			s.must, s.may = true, true
+		case a.isMuCall(i, "Unlock"):
+			s.must, s.may = false, false
+		case isDeferUnlock(i):
+			s.dMust, s.dMay = true, true
+		default:
+			if _, ok := i.(*ssa.RunDefers); ok {
+				if s.dMust {
+					s.must, s.may = false, false
+				} else if s.dMay {
+					s.must = false
+				}
+			}
+		}
+		return s
+	}
 	in := map[*ssa.BasicBlock]st{}
 	out := map[*ssa.BasicBlock]st{}
 	for _, b := range fn.Blocks {
-		in[b] = st{true, false}
-		out[b] = st{true, false}
+		in[b] = st{true, false, true, false}
+		out[b] = st{true, false, true, false}
 	}
 	if len(fn.Blocks) == 0 {
 		return li
@@ -316,28 +344,26 @@ func (a *clientAnchors) lockFlow(fn *ssa.Function) *lockInfo {
 	// entry state: an unexported function of the package that is only ever called (statically) with the lock
 	// held starts with the lock held ("c.pendingMu must be held by the caller" helpers)
 	em, ey := a.entryLock(fn)
-	in[fn.Blocks[0]] = st{em, ey}
+	in[fn.Blocks[0]] = st{em, ey, false, false}
 	for changed := true; changed; {
 		changed = false
 		for _, b := range fn.Blocks {
 			s := in[b]
 			if b != fn.Blocks[0] {
-				s = st{true, false}
+				s = st{true, false, true, false}
 				if len(b.Preds) == 0 {
-					s = st{false, false}
+					s = st{false, false, false, false}
 				}
 				for _, p := range b.Preds {
 					s.must = s.must && out[p].must
 					s.may = s.may || out[p].may
+					s.dMust = s.dMust && out[p].dMust
+					s.dMay = s.dMay || out[p].dMay
 				}
 			}
 			in[b] = s
 			for _, i := range b.Instrs {
-				if a.isMuCall(i, "Lock") {
-					s = st{true, true}
-				} else if a.isMuCall(i, "Unlock") {
-					s = st{false, false}
-				}
+				s = step(s, i)
 			}
 			if out[b] != s {
 				out[b] = s
@@ -350,11 +376,7 @@ func (a *clientAnchors) lockFlow(fn *ssa.Function) *lockInfo {
 		for _, i := range b.Instrs {
 			li.must[i] = s.must
 			li.may[i] = s.may
-			if a.isMuCall(i, "Lock") {
-				s = st{true, true}
-			} else if a.isMuCall(i, "Unlock") {
-				s = st{false, false}
-			}
+			s = step(s, i)
 		}
 		li.exitMay[b] = s.may
 	}
